@@ -7,16 +7,21 @@ Lean cannot model GCC's constant evaluator (DESIGN §6).  What is proved here:
    (`gen/dispatch.py`): every function with two code paths is bound to ONE specification — each builtin it calls is
    one that is assumed to implement that specification and each callee on the other path is tied to that same
    specification (`dispatch_consistent`); the functions the property names are all present
-   (`dispatch_covers_anchors`); the exactly-specified functions whose two *simultaneously live* paths are known to
-   differ are `fma` (finding of this property) and `fmod`, `remainder` (gcem::fmod, finding of property C16) and no
-   other (`dispatch_divergent_are_known`); every callee marked `proved` names a theorem below
-   (`proved_callees_have_theorems`);
+   (`dispatch_covers_anchors`); the only exactly-specified function whose two *simultaneously live* paths are known to
+   differ is `fma`, on the arguments for which GCC does not fold the builtin (`dispatch_divergent_are_known`);
+   `fmod`, `remainder` and `sqrt` run the same builtin on both paths under GCC (`dispatch_ct_builtin`: their gcem
+   callees, known to differ, are compiled for other compilers only); every callee marked `proved` names a theorem
+   below (`proved_callees_have_theorems`: a check of names, the theorems themselves are checked by elaboration);
 2. for each such pair, for ALL inputs: the model of tetl's own code on one path returns — without an out-of-bounds
    read, overflow or other undefined behaviour (`= .ok …`) — exactly the value of the specification of the builtin
    on the other path (`*_paths`).  The integer and C-string models and their proofs are those of the owning
    properties C14 and C18, imported; the floating-point classification functions are proved here at bit level
    for every format `(ebits, mbits)`;
-3. the known divergence: `fma_paths_partial` / `fma_paths_counterexample`.
+3. the known divergence: `fma_paths_partial` / `fma_paths_counterexample` / `fma_ct_fails_counterexample`.
+
+Theorems marked "re-export" restate a theorem of the owning property (C14, C18) for the inventory; they add no
+proof obligation of their own (and `memcpy`/`memmove`/`memcmp`/`memchr` are not constexpr functions: their two paths
+are selected by the preprocessor, not by constant evaluation).
 
 The tie of both paths to these models/specifications is the three-way correspondence run of checks/props/c13.py.
 -/
@@ -25,6 +30,7 @@ import TetlProofs.C13.Lemmas
 import TetlProofs.C13.LemmasSafe
 import TetlProofs.C13.GcemValue
 import TetlProofs.C13.GcemRound
+import TetlProofs.C13.FmaSqrt
 import TetlProofs.C14.Props
 import TetlProofs.C18.Props
 namespace Tetl.C13.Props
@@ -39,27 +45,34 @@ theorem dispatch_consistent : ∀ e ∈ dispatch, entryOk e = true := by decide
 /-- Every two-path function named by the property is in the inventory. -/
 theorem dispatch_covers_anchors : ∀ n ∈ expectedFns, n ∈ dispatch.map (·.fn) := by decide
 
-/-- Among the entries whose two paths are live in the same program (`is_constant_evaluated()` switch) and whose
-    result is exactly specified, the ones with a callee known to differ from the specification are exactly
-    `fma` (two roundings, F-c13-fma-constexpr-double-rounding) and — since the run-time paths of `fmod` and
-    `remainder` call the libm builtins (dda5d6c, f1c8460) — `fmod` and `remainder`, whose constant-evaluated path is
-    gcem's `x - trunc(x / y) * y` (F-C16-gcem-fmod-constexpr, recorded and exercised by property C16).
-    (Until the C16 fixes this list was `["fma"]`: fmod and remainder ran gcem on both paths.) -/
-theorem dispatch_divergent_are_known : divergentIce dispatch = ["fma", "fmod", "remainder"] := by decide
+/-- Among the entries whose two paths are live in the same program (`is_constant_evaluated()` switch), whose result is
+    exactly specified and whose constant evaluation reaches tetl's/gcem's own code under GCC (`ct ≠ builtin`), the only
+    one with a callee known to differ from the specification is `fma`: `x * y + z`, which since 2d96e3e serves only the
+    arguments for which GCC does not fold `__builtin_fma` (finding F-c13-fma-constexpr-unfolded, §3).
+    (History: `["fma"]` originally; `["fma", "fmod", "remainder"]` after the C16 fixes made fmod/remainder two-path
+    functions — and `sqrt` was missing from that list only because it was labelled `approx`; since 55139da, 67c4687,
+    f0dd916 these three run the builtin on both paths, see `dispatch_ct_builtin`.) -/
+theorem dispatch_divergent_are_known : divergentIce dispatch = ["fma"] := by decide
+
+/-- The entries whose constant evaluation runs the run-time builtin under GCC (a ladder of special values, then
+    `if (folds or not is_constant_evaluated()) return __builtin_f(…)`) are exactly `fmod`, `remainder` and `sqrt`; for
+    them "both paths agree" is the statement that the ladder agrees with the specification of the builtin
+    (`sqrt_paths` below; `Tetl.C16.Props.fmodCt_eq`, `remainderCt_eq` for the other two). -/
+theorem dispatch_ct_builtin : ctBuiltin dispatch = ["fmod", "remainder", "sqrt"] := by decide
 
 /-- Every callee marked `proved` in `Spec.calleeTable` names its theorem in `Spec.proofOf`. -/
 theorem proved_callees_have_theorems : provedHaveProofs = true := by decide
 
 /-! ## 2. tetl's own code = the specification of the builtin on the other path -/
 
-/-- popcount: the constant-evaluated path (`detail::popcount_fallback`, Kernighan's loop) returns what
+/-- (Re-export of the owning property's theorem; no proof obligation of its own) popcount: the constant-evaluated path (`detail::popcount_fallback`, Kernighan's loop) returns what
     `__builtin_popcount{,l,ll}` is specified to return, for every width and value. -/
 theorem popcount_paths (w val : Nat) (hv : val < 2 ^ w) :
     C14.popcountFallback w val = .ok (C14.Spec.popcount w val) :=
   C14.Props.popcountFallback_eq w val hv
 example : C14.popcountFallback 32 0xF00F0001 = .ok (C14.Spec.popcount 32 0xF00F0001) := popcount_paths 32 _ (by decide)
 
-/-- add_sat: the `__builtin_add_overflow` branch and `detail::add_sat_fallback` (every `if constexpr` branch, no
+/-- (Re-export of the owning property's theorem; no proof obligation of its own) add_sat: the `__builtin_add_overflow` branch and `detail::add_sat_fallback` (every `if constexpr` branch, no
     intermediate overflow) return the same value, the exact sum clamped to the type. -/
 theorem add_sat_paths (t : C14.ITy) (hw : 1 ≤ t.w) (x y : Int) (hx : t.inR x = true) (hy : t.inR y = true) :
     C14.addSat t x y = .ok (C14.Spec.clampTo t.min t.max (x + y)) ∧
@@ -70,13 +83,13 @@ theorem add_sat_paths (t : C14.ITy) (hw : 1 ≤ t.w) (x y : Int) (hx : t.inR x =
 example : C14.addSatFallback ⟨64, true⟩ (2 ^ 63 - 1) 1 = C14.addSat ⟨64, true⟩ (2 ^ 63 - 1) 1 :=
   (add_sat_paths ⟨64, true⟩ (by decide) _ _ (by decide) (by decide)).2
 
-/-- byteswap, 16 bit: `detail::byteswap_fallback(uint16_t)` reverses the two bytes, what `__builtin_bswap16` is
+/-- (Re-export of the owning property's theorem; no proof obligation of its own) byteswap, 16 bit: `detail::byteswap_fallback(uint16_t)` reverses the two bytes, what `__builtin_bswap16` is
     specified to do.  (The 32- and 64-bit overloads are covered by the correspondence run only.) -/
 theorem byteswap_paths (v : Nat) (hv : v < 2 ^ 16) : C14.byteswapFallback 16 v = .ok (C14.Spec.bswap 2 v) := by
   simp [C14.byteswapFallback, bswap16_eq v hv]
 example : C14.byteswapFallback 16 0x1234 = .ok (C14.Spec.bswap 2 0x1234) := byteswap_paths _ (by decide)
 
-/-- strlen: `detail::strlen` (the GCC branch; clang calls `__builtin_strlen`) returns the ISO C length and reads
+/-- (Re-export of the owning property's theorem; no proof obligation of its own) strlen: `detail::strlen` (the GCC branch; clang calls `__builtin_strlen`) returns the ISO C length and reads
     only inside the terminated string. -/
 theorem strlen_paths (b : C18.Buf) (p : Nat) (h : C18.Spec.Terminated b p) :
     C18.strlen b p = .ok (C18.Spec.strlen b p) := C18.Props.strlen_eq b p h
@@ -129,7 +142,7 @@ example : C18.memcmp C18.CT.char [1, 0, 3] 0 [1, 0, 4] 0 3
     (by intro x hx; simp at hx; rcases hx with rfl | rfl | rfl <;> decide)
     (by intro x hx; simp at hx; rcases hx with rfl | rfl | rfl <;> decide)
 
-/-- memcpy / memmove (run time only: not usable in constant expressions; listed because the headers switch between
+/-- (Re-export of the owning property's theorem; not a constexpr function: paths selected by the preprocessor) memcpy / memmove (run time only: not usable in constant expressions; listed because the headers switch between
     a builtin and `detail::memcpy` / `detail::memmove` by compiler) -/
 theorem memcpy_paths (dst : C18.Buf) (d : Nat) (src : C18.Buf) (s n : Nat) (hs : s + n ≤ src.length)
     (hroom : d + n ≤ dst.length) : C18.memcpy dst d src s n = .ok (d, C18.Spec.memcpy dst d src s n) :=
@@ -182,8 +195,12 @@ theorem copysign_spec (f : Fmt) (x y : Nat) (hx : x < 2 ^ f.width) (hy : y < 2 ^
 example : Model.copysignFallback f32 0 0xbf800000 = FSpec.copysign f32 0 0xbf800000 :=
   (copysign_spec f32 _ _ (by decide) (by decide)).1 (by decide)
 
-/-- signbit: `detail::signbit_fallback` (the alternative where `__builtin_signbit` is missing; 4- and 8-byte
-    formats) shifts the sign bit of the representation down: the specification of the builtin, for ±0 and NaNs too -/
+/-- signbit: `detail::signbit_fallback` (the alternative where `__builtin_signbit` is missing) FOR THE 4- AND 8-BYTE
+    TYPES shifts the sign bit of the representation down: the specification of the builtin, for ±0 and NaNs too.
+    (`f` is any format, but the code has this form only for `sizeof(T) ∈ {4, 8}`, i.e. binary32 and binary64; the
+    third branch of the function — `long double` — compares values and is NOT modelled: see the harness rows
+    `signbit_fb_*` and coverage.unproved_observed.)  GCC takes `__builtin_signbit` on both paths, so this code runs
+    only when the harness calls `detail::signbit_fallback` directly. -/
 theorem signbit_paths (f : Fmt) (b : Nat) (hb : b < 2 ^ f.width) : Model.signbitFallback f b = FSpec.signbit f b := by
   have hW := signW_pos f
   rw [two_signW] at hb
@@ -325,24 +342,55 @@ theorem rintFallback_total (f : Fmt) (h : Std f) (b : Nat) (hb : b < 2 ^ f.width
 example : ∃ v, Model.rintFallback f32 0x7149f2ca = .ok v := rintFallback_total f32 std_f32 _ (by decide)
 example : ∃ v, Model.rintFallback f64 0xC3E0000000000001 = .ok v := rintFallback_total f64 std_f64 _ (by decide)
 
-/-! ## 3. the known divergence: fma in constant evaluation (F-c13-fma-constexpr-double-rounding) -/
+/-- sqrt (the sqrt builtin on both paths under GCC since 55139da): the special-value ladder that constant
+    evaluation runs in front of the builtin (`arg != arg or arg == +inf` ↦ arg, `arg < 0` ↦ NaN; GCC folds the builtin
+    for the remaining arguments) agrees with the specification of the builtin — the correctly rounded root
+    `FSpec.sqrt` — for every pattern of every standard format (`Std f`; false for the degenerate `ebits = 0`, where −0
+    is also an infinity); a NaN argument is returned unchanged. -/
+theorem sqrt_paths (f : Fmt) (h : Std f) (b : Nat) (hb : b < 2 ^ f.width) :
+    (f.isNaN b = false → Model.sqrtCt f b = FSpec.sqrt f b) ∧ (f.isNaN b = true → Model.sqrtCt f b = b) :=
+  FmaSqrt.sqrtCt_eq f h b hb
+example : Model.sqrtCt f32 0x0da24260 = FSpec.sqrt f32 0x0da24260 := (sqrt_paths f32 std_f32 _ (by decide)).1 (by decide)
+example : Model.sqrtCt f32 0xff800000 = FSpec.sqrt f32 0xff800000 := (sqrt_paths f32 std_f32 _ (by decide)).1 (by decide)
 
-/-- the excluded input class: rounding the product first and the sum again differs from rounding the exact
-    `x·y + z` once -/
-def DoubleRounds (f : Fmt) (x y z : Nat) : Bool := Model.fmaTwoStep f x y z != f.fma x y z
+/-! ## 3. the known divergence: fma in constant evaluation (F-c13-fma-constexpr-unfolded)
 
-/-- outside the class the constant-evaluated path (`x * y + z`) and the run-time path (`__builtin_fma`, specified as
-    the fused operation) agree -/
-theorem fma_paths_partial (f : Fmt) (x y z : Nat) (h : DoubleRounds f x y z = false) :
-    Model.fmaTwoStep f x y z = f.fma x y z := by
-  unfold DoubleRounds at h; simpa using h
-example : Model.fmaTwoStep f32 0x3fc00000 0x40000000 0x3f800000 = f32.fma 0x3fc00000 0x40000000 0x3f800000 :=
-  fma_paths_partial f32 _ _ _ (by decide +kernel)
+Since 2d96e3e the constant-evaluated path is `__builtin_fma` wherever GCC folds it (`Model.gccFoldsFma`: finite
+arguments and a result that is a value of the format after one rounding) and `x * y + z` elsewhere (`Model.fmaCt`).
+The former finding (every double rounding) is fixed; what remains is the class `FmaSqrt.FmaResidual`. -/
 
-/-- the class is not empty: (1+2^-23)·(1+2^-23) − (1+2^-22) is 0 with two roundings and 2^-46 fused -/
+/-- the excluded input class, defined on the ARGUMENTS (not by comparing the two results): GCC does not fold the builtin
+    and x, y are finite with z finite or the rounded product overflowing, or inf·0 meets a NaN addend -/
+abbrev FmaResidual := FmaSqrt.FmaResidual
+
+/-- outside the class, wherever the fused result is defined (no invalid operation among non-NaN arguments), the
+    constant-evaluated path IS a constant expression and returns the value of the run-time path (`__builtin_fma`,
+    specified as the fused operation): for every format, all patterns, NaNs and infinities included -/
+theorem fma_paths_partial (f : Fmt) (h : Std f) (x y z : Nat) (hx : x < 2 ^ f.width) (hy : y < 2 ^ f.width)
+    (hz : z < 2 ^ f.width) (hres : FmaResidual f x y z = false)
+    (hdef : (f.isNaN x || f.isNaN y || f.isNaN z) = false → f.isNaN (f.fma x y z) = false) :
+    Model.fmaCt f x y z = .ok (f.fma x y z) :=
+  FmaSqrt.fmaCt_eq f h x y z hx hy hz hres hdef
+-- the former double-rounding witness (1+2^-23)·(1+2^-23) − (1+2^-22) is outside the class and now fused
+example : Model.fmaCt f32 0x3f800001 0x3f800001 0xbf800002 = .ok 0x28800000 :=
+  fma_paths_partial f32 std_f32 _ _ _ (by decide) (by decide) (by decide) (by decide +kernel) (by decide +kernel)
+-- a non-finite argument
+example : Model.fmaCt f32 0x7f800000 0x3f800000 0x3f800000 = .ok (f32.fma 0x7f800000 0x3f800000 0x3f800000) :=
+  fma_paths_partial f32 std_f32 _ _ _ (by decide) (by decide) (by decide) (by decide +kernel) (by decide +kernel)
+
+/-- the class contains a failing input: 2^-75 · 2^-75 + 2^-149 is exactly 1.5 units of the last place of the subnormal
+    range; fused it rounds to 2 units, GCC does not fold it, and x*y+z rounds the product to 0 first: 1 unit -/
 theorem fma_paths_counterexample :
-    DoubleRounds f32 0x3f800001 0x3f800001 0xbf800002 = true ∧
-    Model.fmaTwoStep f32 0x3f800001 0x3f800001 0xbf800002 = 0 ∧
-    f32.fma 0x3f800001 0x3f800001 0xbf800002 = 0x28800000 := by decide +kernel
+    FmaResidual f32 0x1a000000 0x1a000000 1 = true ∧
+    (Model.fmaCt f32 0x1a000000 0x1a000000 1).toOption = some 1 ∧ f32.fma 0x1a000000 0x1a000000 1 = 2 :=
+  FmaSqrt.fma_unfolded_witness
+
+/-- … and an input inside the domain for which constant evaluation FAILS: 2^127 · 2^127 + (−inf) is −inf fused, but the
+    product overflows in x*y+z (not a constant expression) -/
+theorem fma_ct_fails_counterexample :
+    FmaResidual f32 0x7f000000 0x7f000000 0xff800000 = true ∧
+    (Model.fmaCt f32 0x7f000000 0x7f000000 0xff800000).toOption = none ∧
+    f32.fma 0x7f000000 0x7f000000 0xff800000 = 0xff800000 :=
+  FmaSqrt.fma_ct_fails_witness
 
 end Tetl.C13.Props
